@@ -113,6 +113,18 @@ pub fn op_any<A: HC, const K: usize, S: HS>(op: &str, a: &KArgs<A>) -> R<String>
             match a.pairing.as_str() {
                 "slice" => format!("{}", PartialEq::<SeqSlice<A>>::eq(&k, x)),
                 "refslice" => format!("{}", k == x),
+                // Kmer == SeqArray<A, K, 1> / &SeqArray<A, K, 1> (hand-built array of exactly K symbols in one word)
+                "arr" | "refarr" => {
+                    if x.len() != K || K * A::BITS as usize > 64 {
+                        return Err(Fail::BadOp("arr length".into()));
+                    }
+                    let arr = crate::hc::make_arr::<A, K, 1>(x);
+                    if a.pairing == "arr" {
+                        format!("{}", k == arr)
+                    } else {
+                        format!("{}", k == &arr)
+                    }
+                }
                 _ => return Err(Fail::BadOp("pairing".into())),
             }
         }
